@@ -584,7 +584,7 @@ func crashCampaign(prop string, r *Result, quick, thorough int, double bool) {
 			}
 			nw := len(rr.recs)
 			r.count(fmt.Sprintf("writes<=%d", (nw/20+1)*20))
-			for k := 0; k <= nw; k++ {
+			for k := 0; k <= nw && !expired(); k++ {
 				if cfg.Tier == "quick" && nw > 40 && k%2 == 1 {
 					continue
 				}
@@ -607,7 +607,7 @@ func crashCampaign(prop string, r *Result, quick, thorough int, double bool) {
 					if cfg.Tier == "quick" && i != -2 {
 						step = 3
 					}
-					for j := 1; j < len(rc.recs); j += step {
+					for j := 1; j < len(rc.recs) && !expired(); j += step {
 						w2 := append(append([]writeRec{}, rr.recs[:k]...), rc.recs[:j]...)
 						desc2 := map[string]any{"spec": ps, "cut": k, "cut2": j, "of": nw}
 						rc2 := recoverFrom(rr, ps, w2, 15*time.Second)
